@@ -11,7 +11,7 @@ WHAT = {
               "ghost (tally) mode also for C03/C04 runs"),
     "C04-a": ("agreement: certificate with a voter that is also an equivocation pair authenticates",
               "crafting adversary builds `voter-also-eq-pair`; oracle calls the real Certificate.Authenticate"),
-    "C05-a": ("agreement/voteAggregator.go: bundles of an earlier period are no longer verified (nodes that fell behind never catch up)", ""),
+    "C05-a": ("agreement/voteAggregator.go: bundles of an earlier period are no longer verified (two groups that saw different next-quorums never re-converge)", "none; note the reach: the needed split state appears in about 1 of 500 runs with the first engine version and 1 of ~1800 after the determinism changes of 11.3 (a quick run does ~600): caught by about one quick run in three, by the thorough tier reliably"),
     "C06-a": ("agreement/voteTracker.go: a stale plain vote survives an equivocation: emitted bundle holds the sender twice", "ghost (tally) mode: most stake held by crafted voters"),
     "C07-a": ("agreement/persistence.go: next-round routers dropped from the persisted state",
               "hold fault (a node lags one round with pipelined next-round traffic); longer twin horizon there"),
